@@ -139,7 +139,7 @@ theorem programError_none {t : ExternalTask} {p : Program} {priv : List Pred}
     predicate in a rule head, placeholders declared once, user-guide assumptions over input
     predicates only — and the same for a specification program, or for a specification: its
     assumptions mention no output predicate and only inputs / the program's private predicates,
-    and only assumption / spec / definition roles occur. -/
+    and only assumption / spec roles occur. -/
 theorem external_ok_implies (t : ExternalTask) (fuel : Nat) (ps : List Problem)
     (h : externalProblems t fuel = .ok ps) :
     t.rep = .tauStar ∧ (∀ q ∈ t.userGuide.inputs, q ∉ t.userGuide.outputs) ∧
@@ -153,7 +153,7 @@ theorem external_ok_implies (t : ExternalTask) (fuel : Nat) (ps : List Problem)
           hasPrivateRecursion p t.specPrivate = false ∧ ∀ q ∈ t.userGuide.inputs, q ∉ p.headPreds
       | .inr s => (∀ f ∈ s, f.role = .assumption → ∀ q ∈ f.formula.preds, q ∉ t.userGuide.outputs) ∧
           assumptionError t t.progPrivate s = none ∧
-          ∀ f ∈ s, f.role = .assumption ∨ f.role = .spec ∨ f.role = .definition) := by
+          ∀ f ∈ s, f.role = .assumption ∨ f.role = .spec) := by
   have hpre : precheck t = none := by
     unfold externalProblems at h
     cases hp : precheck t with
@@ -207,9 +207,7 @@ theorem external_ok_implies (t : ExternalTask) (fuel : Nat) (ps : List Problem)
                         have := hroles f hf
                         by_cases h1 : f.role = .assumption
                         · exact Or.inl h1
-                        · by_cases h2 : f.role = .spec
-                          · exact Or.inr (Or.inl h2)
-                          · exact Or.inr (Or.inr (Classical.not_not.mp (this ⟨h1, h2⟩)))
+                        · exact Or.inr (Classical.not_not.mp (this h1))
 
 /-- … and on any violated check nothing is emitted: the result is an error. -/
 theorem external_err_of_precheck (t : ExternalTask) (fuel : Nat) (e : TaskError)
